@@ -239,7 +239,7 @@ def crate_iter_next(M, ty):
     return _CIN[tn]
 ADAPT = ('cycle', 'scan', 'map', 'filter', 'filter_map', 'enumerate', 'rev', 'zip', 'chain', 'skip', 'take', 'cloned', 'copied', 'step_by', 'take_while', 'skip_while', 'by_ref', 'peekable', 'inspect', 'flat_map', 'flatten', 'map_while', 'fuse')
 CONSUME = ('next', 'next_back', 'collect', 'count', 'last', 'nth', 'fold', 'all', 'any', 'find', 'find_map', 'position', 'sum', 'product', 'min', 'max', 'for_each', 'len', 'size_hint', 'rposition', 'unzip', 'partition',
-           'min_by_key', 'max_by_key', 'try_fold', 'reduce', 'eq', 'rfind', 'nth_back', 'is_empty')
+           'min_by_key', 'max_by_key', 'min_by', 'max_by', 'try_fold', 'reduce', 'eq', 'rfind', 'nth_back', 'is_empty')
 @model_re(r'^<.* as (Iterator|DoubleEndedIterator|ExactSizeIterator)>::(\w+)$|^core::iter::(Iterator|DoubleEndedIterator|ExactSizeIterator)::(\w+)$')
 def _(M, a, c):
     nm = norm_name(c); fn = nm.split('::')[-1]
@@ -509,6 +509,15 @@ def consume(M, fn, it, a, c):
             else:
                 if r.variant == 1: return r
                 acc = r.fields[0]
+    if fn in ('min_by', 'max_by'):
+        f = a[1]; best = STOP
+        while True:
+            x = it.nxt()
+            if x is STOP: return NONE() if best is STOP else some(best)
+            if best is STOP: best = x; continue
+            v = callf(M, f, [Ref([best], 0), Ref([x], 0)]).variant        # cmp(best, x)
+            if fn == 'min_by' and v == 2: best = x                      # first minimum is kept
+            if fn == 'max_by' and v <= 1: best = x                      # last maximum is kept
     if fn in ('all', 'any'):
         f = a[1]
         while True:
@@ -1777,7 +1786,7 @@ def _(M, a, c):
     r = M.do_call('core::num::<impl %s%d>::checked_%s' % ('i' if x.s else 'u', x.w, op), [x, y], None)
     if r.variant == 0: raise Panic("attempt to %s with overflow (or a zero divisor)" % op)
     cell.store(r.fields[0]); return UNIT
-@model_re(r'^<[A-Z]\\w? as (PartialOrd|Ord|PartialEq)(<.*>)?>::(eq|ne|lt|le|gt|ge|cmp|partial_cmp|max|min)$')
+@model_re(r'^<[A-Z]\w? as (PartialOrd|Ord|PartialEq)(<.*>)?>::(eq|ne|lt|le|gt|ge|cmp|partial_cmp|max|min)$')
 def _(M, a, c):
     # comparison through a bare type parameter: decided on the run-time values
     fn = norm_name(c).split('::')[-1]
